@@ -11,6 +11,7 @@ import ChythonModel.Proofs.C03PrintShape
 import ChythonModel.Proofs.C03Hydrogens
 import ChythonModel.Proofs.C03HydTotal
 import ChythonModel.Proofs.C03SmilesIff
+import ChythonModel.Proofs.C03Bracket
 /-!
 # C03 — SMILES reader builds exactly the molecule the text denotes, rejects the rest
 
@@ -617,5 +618,81 @@ theorem bond_chars_are_keys : ∀ c ∈ bondChars, (lookupNat c replaceDict).isS
 
 /-- `atom_re` has six capture groups and the element group is mandatory (what `_atom_parse` unpacks) -/
 theorem atom_re_shape : atomRe.length = 6 ∧ (atomRe[1]?).map (fun g => g.1) = some false := by decide
+
+/-! ## bracket atoms: `_atom_parse` and the tokenizer invert the spelling -/
+
+/-- every non-empty string of length ≤ n over an alphabet is in `words` -/
+theorem mem_words (alpha : List Nat) : ∀ (n : Nat) (w : List Nat), w ≠ [] → w.length ≤ n → (∀ c ∈ w, c ∈ alpha) →
+    w ∈ words alpha n
+  | 0, w, hne, hl, _ => by
+    cases w with
+    | nil => exact absurd rfl hne
+    | cons _ _ => simp at hl
+  | n + 1, w, hne, hl, hall => by
+    cases w with
+    | nil => exact absurd rfl hne
+    | cons c w' =>
+      unfold words
+      simp only [List.mem_append, List.mem_map, List.mem_flatMap]
+      have hc : c ∈ alpha := hall c (by simp)
+      cases w' with
+      | nil => exact Or.inl ⟨c, hc, rfl⟩
+      | cons d w'' =>
+        right
+        refine ⟨d :: w'', mem_words alpha n (d :: w'') (by simp) (by simpa using hl) (fun x hx => hall x (by simp [hx])), c, hc, rfl⟩
+
+/-- **Bracket atoms.** For every structured bracket atom `isotope? symbol chirality? hcount? charge? class?` (isotope 1–3
+    digits not starting with 0; symbol = one letter of `atom_re`'s first class, optionally one of its second; `@`/`@@`;
+    `H`, `H0`…`H4`; a sign followed by up to three of `1234+-`; `:` and 1–4 digits) `_atom_parse` of the spelling returns
+    exactly that atom: element (aromatic spellings capitalised, type 8), isotope, atom class, hydrogen count (absent 0,
+    `H` 1, `Hn` n), chirality mark, and the charge **the language assigns to the spelling** (`specCharge`: sign repeated,
+    or sign + digit) — or IncorrectSmiles when the spelling has no meaning (`+-`, `+5`, `++2`). -/
+theorem bracket_atom_roundtrip (b : BSpell) (h : b.wf) :
+    atomParse b.body =
+      match (if b.chg = [] then some 0 else specCharge b.chg) with
+      | some v => .ok (b.tok v)
+      | none => .error (smilesErr "charge token invalid") := by
+  rw [atomParse_body b h]
+  unfold BSpell.chargeVal
+  by_cases hc : b.chg = []
+  · simp [hc]
+  · simp only [hc, if_false]
+    have hmem : b.chg ∈ words [43, 45, 49, 50, 51, 52] 4 := by
+      rcases h.chg with h0 | ⟨c, a, e, hc1, ha, _, hhi⟩
+      · exact absurd h0 hc
+      · apply mem_words
+        · exact hc
+        · rw [e]; simp; omega
+        · intro x hx
+          rw [e] at hx
+          simp only [List.mem_cons] at hx
+          rcases hx with rfl | hx
+          · have : ∀ y, inRanges y clsSign = true → y ∈ [43, 45, 49, 50, 51, 52] := by
+              intro y hy
+              simp [inRanges, clsSign] at hy
+              rcases hy with ⟨h1, h2⟩ | ⟨h1, h2⟩
+              · have : y = 43 := by omega
+                simp [this]
+              · have : y = 45 := by omega
+                simp [this]
+            exact this _ hc1
+          · have : ∀ y, inRanges y clsChg = true → y ∈ [43, 45, 49, 50, 51, 52] := by
+              intro y hy
+              simp [inRanges, clsChg] at hy
+              rcases hy with ⟨h1, h2⟩ | ⟨h1, h2⟩ | ⟨h1, h2⟩
+              · have : y = 49 ∨ y = 50 ∨ y = 51 ∨ y = 52 := by omega
+                rcases this with rfl | rfl | rfl | rfl <;> simp
+              · have : y = 43 := by omega
+                simp [this]
+              · have : y = 45 := by omega
+                simp [this]
+            exact this _ (ha x hx)
+    rw [charge_table_is_spec b.chg hmem]
+    cases specCharge b.chg <;> rfl
+
+/-- the tokenizer on `[`spelling`]`: one atom token, the atom above -/
+theorem bracket_atom_tokenized (b : BSpell) (hwf : b.wf) (v : Int)
+    (hv : (b.chg = [] ∧ v = 0) ∨ lookupStr b.chg chargeDict = some v) :
+    smilesTokenize ([91] ++ b.body ++ [93]) = .ok [.atom (b.tok v).1 (b.tok v).2] := smilesTokenize_bracket b hwf v hv
 
 end ChythonModel.Props.C03
